@@ -226,6 +226,10 @@ func (c15) Eval(c *Chooser, env *Env) *Outcome {
 	diskU := disk.Clone()
 	if cfg != "" {
 		disk.Put(root+"/.github/actionlint.yaml", []byte(cfg))
+	} else if c.Weighted("world.commentcfg", 1, 6) {
+		// a configuration file that configures nothing: only a comment and blank lines
+		disk.Put(root+"/.github/actionlint.yaml", []byte("# nothing configured yet\n\n"))
+		o.probe("comment_only_config", 1)
 	}
 	if u := stripPaths(cfg); u != "" {
 		diskU.Put(root+"/.github/actionlint.yaml", []byte(u))
@@ -233,6 +237,7 @@ func (c15) Eval(c *Chooser, env *Env) *Outcome {
 	if sib != "" {
 		delete(diskU.Files, sib+"/.github/actionlint.yaml")
 	}
+	var cfgFlag []string
 	// -ignore flags
 	var cli []string
 	for i, n := 0, c.Int("world.ncli", 5); i < n; i++ {
@@ -282,8 +287,16 @@ func (c15) Eval(c *Chooser, env *Env) *Outcome {
 		lf = append(lf, sib+"/.github/workflows/a0.yml")
 		lintFiles = append(lf, lintFiles[at:]...)
 	}
+	if cfg != "" && sib == "" && !looseFirst && !sibArg && mode != 5 && mode != 3 && c.Weighted("world.cfgviaflag", 1, 6) {
+		// the same configuration given with -config-file instead of lying in the repository
+		delete(disk.Files, root+"/.github/actionlint.yaml")
+		disk.Put("/w/cfg/custom-actionlint.yaml", []byte(cfg))
+		cfgFlag = []string{"-config-file", "/w/cfg/custom-actionlint.yaml"}
+		o.probe("config_file_option", 1)
+	}
 	spellKind := c.Int("world.spelling", 5) // 0 relative, 1 ./relative, 2 absolute, 3 with .., 4 absolute with /./, // and dir/..
 	var args []string
+	args = append(args, cfgFlag...)
 	for _, p := range cli {
 		args = append(args, "-ignore", p)
 	}
